@@ -102,8 +102,9 @@ namespace GeographicLib {
     static const real tolRG0 =
       real(2.7) * sqrt((numeric_limits<real>::epsilon() * real(0.01)));
     real
-      x0 = sqrt(fmax(x, y)),
-      y0 = sqrt(fmin(x, y)),
+      // Use max/min (not fmax/fmin) to preserve NaNs
+      x0 = sqrt(max(x, y)),
+      y0 = sqrt(min(x, y)),
       xn = x0,
       yn = y0,
       s = 0,
